@@ -72,6 +72,27 @@ type node struct {
 	I    any
 }
 
+// cycles that pass through interface types other than interface{}
+type linker interface{ Link() }
+
+type inode struct {
+	V    int
+	Next linker // non-empty interface
+}
+
+func (*inode) Link() {}
+
+type Any interface{} // a named empty interface is a distinct type from interface{}
+
+type anode struct {
+	V    int
+	Next Any
+	Kids []Any
+	M    map[string]linker
+}
+
+func (*anode) Link() {}
+
 type unsup struct {
 	A int
 	C chan int
@@ -118,6 +139,28 @@ func hostileValue(name string, n int) any {
 		var x any
 		x = &x
 		return x
+	case "nonempty-iface-cycle":
+		a := &inode{V: 1}
+		cur := a
+		for i := 1; i < n; i++ {
+			nx := &inode{V: i}
+			cur.Next = nx
+			cur = nx
+		}
+		cur.Next = a
+		return a
+	case "named-empty-iface-cycle":
+		a := &anode{V: 1}
+		a.Next = a
+		return a
+	case "named-iface-slice-cycle":
+		a := &anode{V: 1}
+		a.Kids = []Any{1, a}
+		return *a
+	case "iface-map-cycle":
+		a := &anode{V: 1, M: map[string]linker{}}
+		a.M["self"] = a
+		return a
 	case "mixed-cycle":
 		a := &node{V: 1, M: map[string]*node{}}
 		b := &node{V: 2, Kids: []*node{a}}
@@ -217,7 +260,7 @@ func hostileValue(name string, n int) any {
 
 func nanF() float64 { var z float64; return z / z }
 
-var hostileNames = []string{"ptr-cycle", "slice-cycle", "map-cycle", "intmap-cycle", "iface-cycle", "mixed-cycle", "struct-map-cycle", "deep-slice", "deep-map", "deep-ptr", "deep-kids",
+var hostileNames = []string{"ptr-cycle", "slice-cycle", "map-cycle", "intmap-cycle", "iface-cycle", "nonempty-iface-cycle", "named-empty-iface-cycle", "named-iface-slice-cycle", "iface-map-cycle", "mixed-cycle", "struct-map-cycle", "deep-slice", "deep-map", "deep-ptr", "deep-kids",
 	"unsupported-struct", "unsupported-in-any", "nil", "typed-nil-ptr", "typed-nil-map", "nil-in-any", "array1-ptr", "array1-ptr-nil", "struct-array1-ptr", "array1-map", "array1-array1-ptr",
 	"struct-struct-ptr", "struct-ptr-nil", "map-ptrkey-text", "map-ptrkey-plain", "map-ifacekey", "map-structkey", "nan", "chan-ptr", "rec-map-type", "rec-slice-type", "rec-mapslice-type", "rec-map-type-cycle"}
 
